@@ -349,15 +349,17 @@ def sample_cells():
             'rhombohedral': am.Box.trigonal(4.0, 75.0), 'monoclinic': am.Box.monoclinic(3.0, 4.1, 5.3, 100.0)}
 
 
-def h_basis_samples(H):
+def h_basis_samples(H, fams=None):
     def fn():
         import atomman as am
         ob = []
         for fam, box in sample_cells().items():
+            if fams is not None and fam not in fams: continue
             V = np.array(box.vects, dtype=float)
             bad = []
             nres = 0
-            for hkl in itertools.product(range(-H, H + 1), repeat=3):
+            extra = [(-3, 3, -2), (-3, 3, -1), (3, -3, 2), (3, 3, -1)] if fam in ('hexagonal', 'rhombohedral') and H < 3 else []      # planes on which a degenerate basis was once returned
+            for hkl in list(itertools.product(range(-H, H + 1), repeat=3)) + extra:
                 if not any(hkl): continue
                 G = np.array(recip_dir(V.tolist(), hkl), dtype=float)
                 for cb in 'abc':
@@ -373,6 +375,7 @@ def h_basis_samples(H):
                     ok = ok and np.linalg.norm(np.cross(N, G)) < 1e-8 * np.linalg.norm(N) * np.linalg.norm(G) and np.dot(N, G) > 0
                     if not ok: bad.append((hkl, cb))
             ob.append((f'{fam}: every returned triple is integer, right-handed, two vectors in the plane, the cut vector out of it, normal along the reciprocal-lattice vector ({nres} results; failing: {bad[:4]})', not bad and nres > 0))
+        if fams is not None and 'hexagonal' not in fams: return ob
         # Miller-Bravais input and output in the hexagonal cell
         box = sample_cells()['hexagonal']; bad = []
         for h, k, l in itertools.product(range(-2, 3), repeat=3):
@@ -441,6 +444,7 @@ def cases(tier, seed=0):
     for nl_, ci, dup in ((2, 2, False), (3, 2, True), (3, 0, False), (4, 1, False)) if tier == 'quick' else ((2, 2, False), (3, 2, True), (3, 0, False), (3, 1, True), (4, 1, False), (4, 2, True), (5, 2, False)):
         cs.append(Case(f'shifts_{nl_}layers_cut{"abc"[ci]}' + ('_dup' if dup else ''), h_shifts(nl_, ci, dup), bind=BIND, maxcases=32, max_paths=400, budget_s=240 if tier == 'quick' else 1500, timeout_ms=20000, weight=2,
                        descr=f'termination shifts computed by FreeSurface.__init__ for {nl_} atomic layers at symbolic heights, cut direction {"abc"[ci]}'))
-    cs.append(Case('basis_samples', h_basis_samples(2 if tier == 'quick' else 3), concrete_only=True, budget_s=170, descr='CONCRETE SAMPLES (not solver-decided): complete free_surface_basis incl. its search loops on one cell per crystal family, all planes within the sample bound, all cut vectors'))
+    for fams in ([None] if tier == 'quick' else [(f,) for f in ('cubic', 'tetragonal', 'orthorhombic', 'hexagonal', 'rhombohedral', 'monoclinic')]):
+      cs.append(Case('basis_samples' + ('' if fams is None else '_' + fams[0]), h_basis_samples(2 if tier == 'quick' else 3, fams), concrete_only=True, budget_s=170, descr='CONCRETE SAMPLES (not solver-decided): complete free_surface_basis incl. its search loops on one cell per crystal family, all planes within the sample bound, all cut vectors'))
     cs.append(Case('surface_samples', h_surface_samples(), concrete_only=True, budget_s=170, descr='CONCRETE SAMPLES (not solver-decided): FreeSurface cells and termination shifts on fcc/bcc/hcp'))
     return cs
